@@ -8,6 +8,7 @@ import (
 	"regexp"
 	"strconv"
 	"strings"
+	"time"
 
 	"github.com/theparanoids/ysshra/csr"
 	"github.com/theparanoids/ysshra/verifharness/lib/ev"
@@ -137,7 +138,7 @@ func genArgv(c *ev.Case) []string {
 }
 
 func main() {
-	ev.Main("C14", "exploration", func(r *ev.Run) {
+	ev.MainIsolated("C14", "exploration", 40*time.Minute, func(r *ev.Run) {
 		r.Rule("seeded (original command, LOGNAME, SSH_CONNECTION, argv) tuples: JSON attribute objects, other JSON values, legacy texts (with and without a version), odd version strings, smuggling attempts, empty, bytes; LOGNAME empty/hostile; connection strings empty, leading space, IPv6, zone ids, tabs, malformed; argv of 0..8 arguments with embedded spaces. distinct_nontrivial = distinct inputs for which NewReqParam SUCCEEDED and every clause of the oracle was evaluated")
 		r.Assume("reference decoders for 'what the client declared': encoding/json into a mirror struct, reference legacy tokenizer", "40-bit ids: at most one duplicate per 5000-call window, never two equal consecutive ids")
 		n := r.Pick(20000, 1000000)
